@@ -25,6 +25,15 @@ impl TemplateLibrary {
         library_contents.sort_by_key(|(file_id, _)| *file_id);
         for (file_id, file_contents) in library_contents {
             for definition in file_contents {
+                // Keep the first of several definitions with the same name (the
+                // duplicate definition error points at the later ones).
+                let is_duplicate = match &definition {
+                    Definition::Function { name, .. } => functions.contains_key(name),
+                    Definition::Template { name, .. } => templates.contains_key(name),
+                };
+                if is_duplicate {
+                    continue;
+                }
                 match definition {
                     Definition::Function { name, args, arg_location, body, .. } => {
                         functions.insert(
